@@ -146,9 +146,12 @@ def judge(ctx, uname, traces, verdicts, stats, focus):
             if s['op'] not in focus:
                 stats['other_property'] += 1     # belongs to a sibling property's check; reported there
                 continue
+            if t['mode'] == 'seq':      # keep the history: the failure may depend on it
+                rp = dict(kind='step', universe=uname, init=t['init'], steps=[dict(op=x['op'], a=x['a']) for x in t['steps'][:l]], clause=clause)
+            else:
+                rp = dict(kind='step', universe=uname, init=pre, steps=[dict(op=s['op'], a=s['a'])], clause=clause)
             ctx.violation(key_of(focus, pre, s, clause),
-                          '%s %r: %s (exc=%s %s)' % (s['op'], s['a'], clause, s['obs']['exc'], s['obs'].get('msg', '')),
-                          dict(kind='step', universe=uname, init=pre, steps=[dict(op=s['op'], a=s['a'])], clause=clause))
+                          '%s %r: %s (exc=%s %s)' % (s['op'], s['a'], clause, s['obs']['exc'], s['obs'].get('msg', '')), rp)
 
 
 def run(ctx, prop, mc, focus, shaping, sim_len=30, extra_paths=None):
@@ -216,14 +219,17 @@ def replay(ctx, data, prop):
     w = ds.World(uni)
     w.set_state(rp['init'])
     steps = []
+    cur = rp['init']
     for s in rp['steps']:
         obs = w.apply(s['op'], s['a'])
         steps.append(dict(op=s['op'], a=s['a'], post=w.project(), obs=obs))
         inv = [s['a'].get(k) for k in ('r', 'x', 'y', 'z', 'd')] + list(s['a'].get('ins', []))
         inv = [n for n in inv if isinstance(n, str)]
-        print('# %s %r -> %r' % (s['op'], s['a'], obs))
-        for n in dict.fromkeys(inv):
-            print('#   %s: %r\n#      -> %r' % (n, rp['init']['st'][n], steps[-1]['post']['st'][n]))
+        print('# %s %r -> %r' % (s['op'], s['a'], {k: v for k, v in obs.items() if v not in ([], 0, True)}))
+        if s is rp['steps'][-1]:
+            for n in dict.fromkeys(inv):
+                print('#   %s: %r\n#      -> %r' % (n, cur['st'][n], steps[-1]['post']['st'][n]))
+        cur = steps[-1]['post']
     defs, cfgc = ds.tla_constants(uni)
     v = tlc.validate_traces('Streams', defs, cfgc, [dict(id='R0', mode='seq', init=rp['init'], steps=steps)], procs=1)['R0']
     print('# verdict: %r' % (v,))
